@@ -28,6 +28,13 @@ theorem facts_draw_modes :
       (Layout.textMode false st).drawStrict = true ∧ (Layout.textMode false st).fill = some st) := by
   refine ⟨by decide, rfl, rfl, rfl, rfl, fun st => ⟨rfl, rfl, rfl, rfl⟩⟩
 
+/-- The `findContainerSize` guards are `>=` and each Draw allocates `NewSurface(size.Width, size.Height)`
+(the argument expressions are read from the source and evaluated by the model), all four functions. -/
+theorem facts_size_ok :
+    (∀ hard, (Layout.richMode hard).sizeOK) ∧ (∀ hard st, (Layout.textMode hard st).sizeOK) := by
+  refine ⟨fun hard => ?_, fun hard st => ?_⟩ <;> cases hard <;>
+    exact ⟨rfl, by simp only [Layout.textMode, Layout.richMode]; decide⟩
+
 theorem width_toWin (l : List Cell) : width (l.map toWin) = sumW l := by
   induction l with
   | nil => rfl
@@ -66,7 +73,7 @@ theorem rich_draw_rows (lb : Nat → Nat → Bool) (maxW maxH : UInt16) (cells :
     intro c hc
     obtain ⟨c0, _, rfl⟩ := List.mem_map.mp hc
     simp [toWin]
-  obtain ⟨s, h1, h2, h3, h4, h5⟩ := drawText_cells (Layout.richMode false) rfl rfl rfl (ctxOf maxW maxH) _ hall
+  obtain ⟨s, h1, h2, h3, h4, h5⟩ := drawText_cells (Layout.richMode false) rfl (facts_size_ok.1 false) rfl (ctxOf maxW maxH) _ hall
   refine ⟨s, ?_, by simpa [ctxOf] using h3, h2, h4, ?_⟩
   · simp only [richDraw, h, facts_draw_modes.1, h1, WrapDraw.ofExcept]
   · intro x y hx hy
@@ -200,7 +207,7 @@ theorem text_draw_rows {σ : Type} (seg : σ → List Cell → Nat × Bool × σ
     intro c hc
     obtain ⟨c0, _, rfl⟩ := List.mem_map.mp hc
     simp [toWinSt]
-  obtain ⟨s, h1, _, h3, h4, h5⟩ := drawText_cells (Layout.textMode false style) rfl rfl rfl (ctxOf maxW maxH) _ hall
+  obtain ⟨s, h1, _, h3, h4, h5⟩ := drawText_cells (Layout.textMode false style) rfl (facts_size_ok.2 false style) rfl (ctxOf maxW maxH) _ hall
   refine ⟨s, ?_, by simpa [ctxOf] using h3, h4, ?_⟩
   · simp only [textDraw, h, facts_draw_modes.1, h1, WrapDraw.ofExcept]
   · intro x y hx hy
@@ -273,7 +280,7 @@ theorem hard_draw_rows (maxW maxH : UInt16) (cells : List Cell)
     intro c hc
     obtain ⟨c0, _, rfl⟩ := List.mem_map.mp hc
     simp [toWin]
-  obtain ⟨s, h1, _, h3, h4, h5⟩ := drawText_cells_hard (Layout.richMode true) rfl rfl rfl rfl (ctxOf maxW maxH) _ hall
+  obtain ⟨s, h1, _, h3, h4, h5⟩ := drawText_cells_hard (Layout.richMode true) rfl rfl (facts_size_ok.1 true) rfl (ctxOf maxW maxH) _ hall
   refine ⟨s, ?_, by simpa [ctxOf] using h3, h4, ?_⟩
   · simp only [richHardDraw, hardwrap_is_split_at_newline, facts_draw_modes.1, h1, WrapDraw.ofExcept]
   · intro x y hx hy
@@ -302,7 +309,7 @@ theorem text_hard_draw_rows (style : Nat) (maxW maxH : UInt16) (lines : List (Li
     intro c hc
     obtain ⟨c0, _, rfl⟩ := List.mem_map.mp hc
     simp [toWinSt]
-  obtain ⟨s, h1, _, h3, h4, h5⟩ := drawText_cells_hard (Layout.textMode true style) rfl rfl rfl rfl (ctxOf maxW maxH) _ hall
+  obtain ⟨s, h1, _, h3, h4, h5⟩ := drawText_cells_hard (Layout.textMode true style) rfl rfl (facts_size_ok.2 true style) rfl (ctxOf maxW maxH) _ hall
   refine ⟨s, by rw [facts_draw_modes.1]; exact h1, by simpa [ctxOf] using h3, h4, ?_⟩
   intro x y hx hy
   rw [h5 x y hx hy]
